@@ -286,8 +286,14 @@ def parse_stmt(line):
     return ('assign', parse_place(lhs), parse_rvalue(rhs))
 
 
+class Bodies(dict):
+    """name -> Body, plus `allocs`: allocN -> name of the static it is the memory of"""
+    allocs = None
+
+
 def parse_mir(text):
-    bodies = {}
+    bodies = Bodies()
+    bodies.allocs = {m.group(1): m.group(2) for m in re.finditer(r'^(alloc\d+) \(static: ([\w:]+)', text, re.M)}
     lines = text.split('\n')
     i = 0
     while i < len(lines):
@@ -306,6 +312,8 @@ def parse_mir(text):
         elif (ln.startswith('const ') or ln.startswith('static ')) and ln.endswith('= {'):
             hdr = ln.split(' ', 1)[1]
             name = hdr.split(': ', 1)[0]
+            if name.startswith('mut '):
+                name = name[4:]
             nargs, ret, args = 0, '', []
         else:
             i += 1; continue
